@@ -380,3 +380,37 @@ Definition check_with (p : program) (c : case) : bool :=
   | CStream rt t st => str_eqb (ser p rt t) st
   | CPerm rt t t' st => str_eqb (ser p rt t) st && str_eqb (ser p rt t') st
   end.
+
+(* ---------------------------------------------------------------------------------------------- the RuleHash wrapper (syntax) *)
+
+(* build.RuleHash(state, target, runtime, postBuild) wraps ruleHash with a memo stored on the target
+   (target.RuleHash).  Its shape is regenerated from the source by gotrans as a `wrapper` (Gen/RuleHashProg.v
+   `rule_hash_wrapper`); the semantics (a small state machine) is in Model/C08_Cache.v.
+     if <w_bypass> { return ruleHash(state, target, <w_bypass_rt>) }
+     if len(target.RuleHash) != 0 { return target.RuleHash }
+     target.RuleHash = ruleHash(state, target, <w_fill_rt>)
+     return target.RuleHash
+   and BuildTarget.BuildCouldModifyTarget() = <w_could_modify>. *)
+Inductive wvar := WRuntime | WPostBuild | WCouldModify.   (* runtime, postBuild, target.BuildCouldModifyTarget() *)
+Inductive mvar := MPostBuildFn | MOutputDirs.              (* PostBuildFunction != nil, len(OutputDirectories) > 0 *)
+
+Inductive bexp (V : Type) :=
+| BVar (v : V)
+| BConst (b : bool)
+| BNot (a : bexp V)
+| BAnd (a b : bexp V)
+| BOr (a b : bexp V).
+Arguments BVar {V} v.
+Arguments BConst {V} b.
+Arguments BNot {V} a.
+Arguments BAnd {V} a b.
+Arguments BOr {V} a b.
+
+Inductive rtarg := RtParam | RtConst (b : bool).          (* third argument of a ruleHash call: `runtime` or a literal *)
+
+Record wrapper := Wrapper {
+  w_bypass : bexp wvar;
+  w_bypass_rt : rtarg;
+  w_fill_rt : rtarg;
+  w_could_modify : bexp mvar
+}.
